@@ -57,59 +57,122 @@ def selftest():
 
 def template_of_path(it, s):
     """the single write!/format! of one path (state): list of ('lit', text) | ('hole', raw value, how)"""
-    news = [e for e in s.events if e[0] == "call" and short_callee(e[1]) in ("Arguments::new", "Arguments::from_str")]
-    if len(news) != 1:
-        raise FmtUnknown("expected exactly one format_args! on the path, found %d" % len(news))
-    e = news[0]
-    if short_callee(e[1]) == "Arguments::from_str":
-        a = e[2][0]
-        while a[0] == "rref":
-            a = a[1]
-        if a[0] != "const" or a[1] != "str":
-            raise FmtUnknown("from_str of a non-constant")
-        return [("lit", a[2])]
-    tmpl, args = e[2][0], e[2][1]
-    while tmpl[0] == "rref":
-        tmpl = tmpl[1]
-    if tmpl[0] != "const" or tmpl[1] != "bytes":
-        raise FmtUnknown("template is not a byte constant: %r" % (tmpl,))
-    while args[0] == "rref":
-        args = args[1]
-    if not (args[0] == "op" and args[1] == "array"):
-        raise FmtUnknown("arguments are not an array literal")
-    arglist = []
-    for a in args[2]:
-        if not (a[0] == "call" and short_callee(a[1]) in ("Argument::new_display", "Argument::new_debug")):
-            raise FmtUnknown("argument is not new_display/new_debug: %s" % show(norm(a)))
-        arglist.append((a[2][0], short_callee(a[1]).split("_")[-1]))
+    # everything written to the formatter on this path, in order: format_args! templates, `write_str` literals and direct
+    # `Display::fmt(x, f)` calls
     out = []
-    nxt = 0
-    for kind, v in decode_template(tmpl[2]):
-        if kind == "lit":
-            if out and out[-1][0] == "lit":
-                out[-1] = ("lit", out[-1][1] + v)
-            else:
-                out.append(("lit", v))
+
+    def lit(text):
+        if out and out[-1][0] == "lit":
+            out[-1] = ("lit", out[-1][1] + text)
         else:
-            i = v if v is not None else nxt
-            if v is None:
-                nxt += 1
-            if i >= len(arglist):
-                raise FmtUnknown("placeholder without argument")
-            a = arglist[i][0]
-            n = 0
-            while a[0] in ("rref", "ref") and n < 6:
-                a = a[1] if a[0] == "rref" else it.load_ptr(s, a[1])
-                n += 1
-            if a[0] == "const" and a[1] == "str" and arglist[i][1] == "display":
-                # a string constant handed to `{}` is printed verbatim: it is part of the template text
-                if out and out[-1][0] == "lit":
-                    out[-1] = ("lit", out[-1][1] + a[2])
-                else:
-                    out.append(("lit", a[2]))
-                continue
-            out.append(("hole", arglist[i][0], arglist[i][1]))
+            out.append(("lit", text))
+
+    def strip(a):
+        n = 0
+        while a[0] in ("rref", "ref") and n < 6:
+            a = a[1] if a[0] == "rref" else it.load_ptr(s, a[1])
+            n += 1
+        return a
+
+    writes = 0
+    for e in s.events:
+        if e[0] != "call":
+            continue
+        sc = short_callee(e[1])
+        if sc == "Arguments::from_str":
+            a = strip(e[2][0])
+            if a[0] != "const" or a[1] != "str":
+                raise FmtUnknown("from_str of a non-constant")
+            lit(a[2])
+            writes += 1
+        elif sc == "Formatter::write_str" and len(e[2]) == 2:
+            a = strip(e[2][1])
+            if a[0] != "const" or a[1] != "str":
+                raise FmtUnknown("write_str of a non-constant")
+            lit(a[2])
+            writes += 1
+        elif sc == "Formatter::write_char" and len(e[2]) == 2:
+            a = strip(e[2][1])
+            if a[0] != "const" or a[1] != "char":
+                raise FmtUnknown("write_char of a non-constant")
+            lit(chr(a[2]))
+            writes += 1
+        elif sc == "Arguments::new":
+            writes += 1
+            tmpl, args = strip(e[2][0]), strip(e[2][1])
+            if tmpl[0] != "const" or tmpl[1] != "bytes":
+                raise FmtUnknown("template is not a byte constant: %r" % (tmpl,))
+            if not (args[0] == "op" and args[1] == "array"):
+                raise FmtUnknown("arguments are not an array literal")
+            arglist = []
+            for a in args[2]:
+                if not (a[0] == "call" and short_callee(a[1]) in ("Argument::new_display", "Argument::new_debug")):
+                    raise FmtUnknown("argument is not new_display/new_debug: %s" % show(norm(a)))
+                arglist.append((a[2][0], short_callee(a[1]).split("_")[-1]))
+            nxt = 0
+            for kind, v in decode_template(tmpl[2]):
+                if kind == "lit":
+                    lit(v)
+                    continue
+                i = v if v is not None else nxt
+                if v is None:
+                    nxt += 1
+                if i >= len(arglist):
+                    raise FmtUnknown("placeholder without argument")
+                a = strip(arglist[i][0])
+                if a[0] == "const" and a[1] == "str" and arglist[i][1] == "display":
+                    # a string constant handed to `{}` is printed verbatim: it is part of the template text
+                    lit(a[2])
+                    continue
+                nested = nested_template(it, s, a) if arglist[i][1] == "display" else None
+                if nested is not None:
+                    for x in nested:
+                        if x[0] == "lit":
+                            lit(x[1])
+                        else:
+                            out.append(x)
+                    continue
+                out.append(("hole", arglist[i][0], arglist[i][1]))
+        elif sc.endswith("::fmt") and len(e[2]) == 2 and ("Display" in e[1] or "Debug" in e[1]):
+            # `x.fmt(f)`: x is printed here
+            out.append(("hole", e[2][0], "debug" if "Debug" in e[1] else "display"))
+            writes += 1
+    if not writes:
+        raise FmtUnknown("nothing is written to the formatter on the path")
     return out
+
+
+def nested_template(it, s, a, depth=0):
+    """template of a value of a crate-local helper type with its own Display impl (a struct built just to be
+    printed), spliced into the template of the caller; None when `a` is not such a value"""
+    f = it.f
+    if a[0] != "adt" or depth > 2:
+        return None
+    adt = f.adts.get(a[1])
+    if not adt or not adt.get("local") or a[1] in ("expr::Expr", "value::Value", "expr::index::Index"):
+        return None
+    imp = f.impl_method("std::fmt::Display", a[1], "fmt") or next(
+        (d for d, b in f.bodies.items() if b.get("name") == "fmt" and not b.get("parent") and (b.get("impl") or {}).get("trait") == "std::fmt::Display"
+         and (b.get("impl") or {}).get("self_s", "").split("<")[0] == a[1]), None)
+    if not imp:
+        return None
+    it2 = Interp(f, opaque=lambda p: is_text_helper(f, p))
+    it2.frame_counter = it.frame_counter + 5000
+    st = s.fork()
+    st.events = []
+    res = it2.run(imp, [("ref", st.alloc(a)), ("ref", st.alloc(("sym", "fmt")))], st)
+    oks = [(s2, rv) for s2, rv in res if ok_path(it2, s2, rv)]
+    if len(oks) != 1:
+        return None
+    return template_of_path(it2, oks[0][0])
+
+
+def ok_path(it, s, rv):
+    """the formatter calls on the path all succeeded (the path does not end in a propagated fmt::Error)"""
+    r = it.resolve(s, rv)
+    if r[0] == "adt" and r[1] == "std::result::Result":
+        return r[2] == "Ok"
+    return not any(c[1] == "is" and c[2] == "Err" for c in s.conds)
 
 
 def is_text_helper(f, path):
@@ -189,7 +252,11 @@ def display_templates(f, adt, impl_path, prefix="self"):
         res = it.run(impl_path, [("ref", st.alloc(selfv)), ("ref", st.alloc(("sym", "fmt")))], st)
         ts = []
         for s, rv in res:
-            ts.append(template_of_path(it, s))
+            if not ok_path(it, s, rv):
+                continue      # a write failed: the partial output of an error path is not a rendering
+            t_ = template_of_path(it, s)
+            if t_ not in ts:
+                ts.append(t_)
         out[var["name"]] = ts
     return out
 
